@@ -140,6 +140,10 @@ bool ops_image(Ctx& c, const json& s, int idx, bool& handled) {
 			try { if (kind == "bmp") { (void)BitmapFile::ReadIndexed(pth); Stream::FileReader fr(pth); (void)BitmapFile::ReadIndexed(fr); } else if (kind == "tileset") { Stream::FileReader fr(pth); (void)Tileset::ReadTileset(fr); } else (void)ArtFile::Read(pth); }
 			catch (const std::exception&) { fileErr = true; }
 			if (!fileErr) { Proto::mismatch(fsite, "accepted-should-refuse", where("a proper prefix of a valid file was loaded from a FILE (" + std::to_string(img.size()) + " bytes)")); return false; } }
+		// every other faulted image once more from a FILE, for safety only (a file reader stores what it can before it reports a short read)
+		if (must != "refuse") { at("load-file"); const std::string pth = via_path("fault.bin"); Scen::spit(pth, img);
+			try { if (kind == "bmp") { Stream::FileReader fr(pth); (void)BitmapFile::ReadIndexed(fr); } else if (kind == "tileset") { Stream::FileReader fr(pth); (void)Tileset::ReadTileset(fr); } else (void)ArtFile::Read(pth); }
+			catch (const std::exception&) { } }
 		if (must == "refuse" && !err) { Proto::mismatch(fsite, "accepted-should-refuse", where("a proper prefix of a valid file was loaded (" + std::to_string(img.size()) + " bytes)")); return false; }
 		if (must == "accept" && err) { Proto::mismatch(fsite, "refused-should-accept", where("")); return false; }
 		return true; }
